@@ -240,7 +240,7 @@ def r01_3_4(run):
     okp = False
     if pp:
         c = pp[0].value
-        okp = len(c.args) == 2 and norm(c.args[0]) == g and norm(c.args[1]) == f"{var}.shape"
+        okp = len(c.args) == 2 and norm(c.args[0]) == g and sem(c.args[1], projection_aliases(fi.node)) == f"{var}.shape"
     npp = cfg.node_for(pp[0]) if pp else None
     for s in stores:
         ns = cfg.node_for(s)
